@@ -2,6 +2,7 @@ package mon
 
 import (
 	"fmt"
+	"strings"
 
 	memefish "github.com/cloudspannerecosystem/memefish"
 )
@@ -58,6 +59,23 @@ func qualifiedSpecialForms() []string {
 			out = append(out, q+f)
 		}
 		out = append(out, "f("+f+")", "("+f+")", f+".x", f+"[0]", "`"+f+"`")
+		// the form's own name as first / middle component of a longer function path
+		if i := strings.IndexAny(f, "( "); i > 0 && strings.Contains(f, "(") && isWord(f[:i]) {
+			name, rest := f[:i], f[i:]
+			for _, q := range []string{name + ".x", "x." + name + ".y", name + "." + name, strings.ToLower(name) + ".x", "`" + name + "`.x", name + ".`x`", name + ".x.y.z", "safe." + name + ".x"} {
+				out = append(out, q+rest)
+			}
+		}
 	}
 	return out
+}
+
+func isWord(s string) bool {
+	for i := 0; i < len(s); i++ {
+		c := s[i]
+		if !(c == '_' || c >= 'a' && c <= 'z' || c >= 'A' && c <= 'Z') {
+			return false
+		}
+	}
+	return s != ""
 }
